@@ -2,6 +2,7 @@ package props
 
 import (
 	"fmt"
+	"strings"
 
 	"github.com/yuin/goldmark/ast"
 	"github.com/yuin/goldmark/text"
@@ -169,6 +170,9 @@ func runC05(c *core.Ctx) {
 		for _, n := range wl.BoundarySizes {
 			// the nesting families are quadratic or worse: they stay small here (C01 runs them large, one at a time)
 			if fi < wl.FirstLimitFamily && n > 257 {
+				continue
+			}
+			if strings.HasSuffix(fam.Name, "-xl") && n != 1025 {
 				continue
 			}
 			for e := 0; e < cfg.NExt; e++ {
